@@ -594,11 +594,72 @@ Inductive ttype := RESOLVED | DEFINED.
    fx_nullref : referencedUnits skips a reference that is not a units of the model instead of recursing on a
                 null pointer (finding C07-null-deref-dangling-units-ref)
    fx_placeholder_children : Component::performTestWithHistory also tests the components encapsulated by an import
-                placeholder itself (/repo commit 0a59695; finding C07-children-of-imported-component-not-tested) *)
-Record fixes := { fx_pop : bool; fx_nullref : bool; fx_placeholder_children : bool }.
-Definition no_fixes : fixes := {| fx_pop := false; fx_nullref := false; fx_placeholder_children := false |}.
-(* the code at /repo HEAD: 94d567f (history pop), 3564768 (referencedUnits null test), 0a59695 (placeholder's children) *)
-Definition head_fixes : fixes := {| fx_pop := true; fx_nullref := true; fx_placeholder_children := true |}.
+                placeholder itself (/repo commit 0a59695; finding C07-children-of-imported-component-not-tested)
+   fx_cycle_guard : hasUnitsCycle(units) is consulted first by Units::isDefined / doIsResolved and by referencedUnits
+                (/repo commit 85ba0d4; finding C07-cyclic-local-units) *)
+Record fixes := { fx_pop : bool; fx_nullref : bool; fx_placeholder_children : bool; fx_cycle_guard : bool }.
+Definition no_fixes : fixes :=
+  {| fx_pop := false; fx_nullref := false; fx_placeholder_children := false; fx_cycle_guard := false |}.
+(* the code at /repo HEAD: 94d567f (history pop), 3564768 (referencedUnits null test), 0a59695 (placeholder's children),
+   85ba0d4 (hasUnitsCycle guard) *)
+Definition head_fixes : fixes :=
+  {| fx_pop := true; fx_nullref := true; fx_placeholder_children := true; fx_cycle_guard := true |}.
+
+(* utilities.cpp (85ba0d4): unitsCycleFrom / hasUnitsCycle — a depth-first walk over the units references, within the
+   owning model and through the model linked to an import source, that keeps the path of units being followed and
+   answers true when a units on the path is met again.  A units object is identified by its owner and its value (from
+   two objects of equal value in one model the same objects are reached).  The code's [done] list only saves work (a
+   units left without a cycle is not walked again): the answer is that of the plain path walk below.  A path never
+   holds a units twice, so it is at most [units_total] long: the fuel is never exhausted. *)
+Fixpoint list_string_eqb (a b : list string) : bool :=
+  match a, b with
+  | [], [] => true
+  | x :: a', y :: b' => String.eqb x y && list_string_eqb a' b'
+  | _, _ => false
+  end.
+
+Definition units_eqb (a b : units) : bool :=
+  match a, b with
+  | ULocal n r, ULocal n' r' => String.eqb n n' && list_string_eqb r r'
+  | UImp n s u r, UImp n' s' u' r' => String.eqb n n' && Nat.eqb s s' && String.eqb u u' && String.eqb r r'
+  | _, _ => false
+  end.
+
+Fixpoint units_cycle_from (fuel : nat) (st : state) (o : owner) (cm : model) (path : list (owner * units)) (u : units)
+         {struct fuel} : bool :=
+  match fuel with
+  | 0 => true
+  | S f =>
+    if existsb (fun p => owner_eqb (fst p) o && units_eqb (snd p) u) path then true
+    else
+      let path' := (o, u) :: path in
+      match u with
+      | UImp _ sid url ref =>
+        match linked_model st o sid url with
+        | None => false
+        | Some sm => match find_units (m_units sm) ref with
+                     | None => false
+                     | Some iu => units_cycle_from f st (Some (key_of o url)) sm path' iu
+                     end
+        end
+      | ULocal _ refs =>
+        existsb (fun r => if is_std r then false
+                          else match find_units (m_units cm) r with
+                               | Some cu => units_cycle_from f st o cm path' cu
+                               | None => false
+                               end) refs
+      end
+  end.
+
+Definition units_total (st : state) (m0 : model) : nat :=
+  fold_right (fun p acc => length (m_units (snd p)) + acc) (length (m_units m0)) (lib st).
+
+Definition has_units_cycle (st : state) (m0 : model) (o : owner) (cm : model) (u : units) : bool :=
+  units_cycle_from (units_total st m0 + 2) st o cm [] u.
+
+(* the guard as the reducers consult it *)
+Definition guarded (fx : fixes) (st : state) (m0 : model) (o : owner) (cm : model) (u : units) : bool :=
+  fx_cycle_guard fx && has_units_cycle st m0 o cm u.
 
 (* "for (x : l) if (step(x)) return true; return false;" *)
 Fixpoint none_found {A X : Type} (step : X -> A -> res (bool * X)) (l : list A) (x : X) : res (bool * X) :=
@@ -649,11 +710,14 @@ Fixpoint units_test (fx : fixes) (fuel : nat) (ty : ttype) (st : state) (m0 : mo
 (* a units object handed out by unitsUsed: one of the model's, or the variable's own name-only units *)
 Inductive uref := InModel (u : units) | Standalone (n : string).
 
-(* utilities.cpp: referencedUnits(model, units) — no null test on model->units(ref), no cycle test *)
-Fixpoint referenced_units (fx : fixes) (fuel : nat) (cm : model) (u : units) {struct fuel} : res (list uref) :=
+(* utilities.cpp: referencedUnits(model, units) — before 3564768 no null test on model->units(ref), before 85ba0d4 no
+   cycle test; the guard is consulted at every level of the recursion *)
+Fixpoint referenced_units (fx : fixes) (cyc : units -> bool) (fuel : nat) (cm : model) (u : units) {struct fuel}
+  : res (list uref) :=
   match fuel with
   | 0 => OutOfFuel
   | S f =>
+    if cyc u then Ok [] else                 (* 85ba0d4: if (hasUnitsCycle(units)) return {}; — [cyc] = [guarded …] *)
     match u with
     | UImp _ _ _ _ => Ok []
     | ULocal _ refs =>
@@ -666,7 +730,7 @@ Fixpoint referenced_units (fx : fixes) (fuel : nat) (cm : model) (u : units) {st
                 | None => if fx_nullref fx then loop rest
                           else Crash                (* referencedUnits(model, nullptr): nullptr->unitCount() *)
                 | Some ru =>
-                  match referenced_units fx f cm ru with
+                  match referenced_units fx cyc f cm ru with
                   | Ok l1 => match loop rest with Ok l2 => Ok (l1 ++ [InModel ru] ++ l2) | other => other end
                   | other => other
                   end
@@ -676,7 +740,7 @@ Fixpoint referenced_units (fx : fixes) (fuel : nat) (cm : model) (u : units) {st
   end.
 
 (* utilities.cpp: unitsUsed(model, component) — the component and all its descendants (no cn elements here) *)
-Fixpoint units_used (fx : fixes) (fuel : nat) (cm : model) (c : comp) {struct c} : res (list uref) :=
+Fixpoint units_used (fx : fixes) (cyc : units -> bool) (fuel : nat) (cm : model) (c : comp) {struct c} : res (list uref) :=
   match c with
   | Comp _ _ used kids =>
     match (fix vars (l : list string) : res (list uref) :=
@@ -685,7 +749,7 @@ Fixpoint units_used (fx : fixes) (fuel : nat) (cm : model) (c : comp) {struct c}
              | n :: r =>
                if is_std n then vars r
                else match (match find_units (m_units cm) n with
-                           | Some mu => match referenced_units fx fuel cm mu with
+                           | Some mu => match referenced_units fx cyc fuel cm mu with
                                         | Ok l => Ok (l ++ [InModel mu])
                                         | other => other
                                         end
@@ -699,7 +763,7 @@ Fixpoint units_used (fx : fixes) (fuel : nat) (cm : model) (c : comp) {struct c}
       match (fix go (l : list comp) : res (list uref) :=
                match l with
                | [] => Ok []
-               | k :: r => match units_used fx fuel cm k with
+               | k :: r => match units_used fx cyc fuel cm k with
                            | Ok a => match go r with Ok b => Ok (a ++ b) | other => other end
                            | other => other
                            end
@@ -718,7 +782,8 @@ Definition uref_test (fx : fixes) (fuel : nat) (ty : ttype) (st : state) (m0 : m
   | Standalone _ =>
     (* a parent-less units without children is resolved and defined; DEFINED then asks model->hasUnits(u): no *)
     match ty with RESOLVED => Ok true | DEFINED => Ok false end
-  | InModel u => res_map fst (units_test fx fuel ty st m0 o cm [] u)
+  | InModel u => if guarded fx st m0 o cm u then Ok false                  (* 85ba0d4: isResolved / isDefined *)
+                 else res_map fst (units_test fx fuel ty st m0 o cm [] u)
   end.
 
 Definition unit_step {A : Type} (f : A -> res bool) : unit -> A -> res (bool * unit) :=
@@ -767,7 +832,7 @@ Fixpoint comp_test (fx : fixes) (fuel : nat) (ty : ttype) (st : state) (m0 : mod
                   end
                 | Comp _ None _ _ => Ok true             (* not reached *)
                 end)
-      (fun c => match units_used fx fuel cm c with
+      (fun c => match units_used fx (guarded fx st m0 o cm) fuel cm c with
                 | Ok us => res_map fst (all_ok (unit_step (uref_test fx fuel ty st m0 o cm)) us tt)
                 | Crash => Crash
                 | OutOfFuel => OutOfFuel
@@ -777,7 +842,8 @@ Fixpoint comp_test (fx : fixes) (fuel : nat) (ty : ttype) (st : state) (m0 : mod
 
 (* model.cpp: Model::hasUnresolvedImports (ty = RESOLVED, returns "all resolved") and Model::isDefined *)
 Definition model_test (fx : fixes) (fuel : nat) (ty : ttype) (st : state) (m0 : model) : res bool :=
-  match all_ok (unit_step (fun u => res_map fst (units_test fx fuel ty st m0 None m0 [] u))) (m_units m0) tt with
+  match all_ok (unit_step (fun u => if guarded fx st m0 None m0 u then Ok false      (* 85ba0d4 *)
+                                    else res_map fst (units_test fx fuel ty st m0 None m0 [] u))) (m_units m0) tt with
   | Ok (true, _) =>
     res_map fst (all_ok (unit_step (comp_test fx fuel ty st m0 None m0 [])) (m_comps m0) tt)
   | other => res_map fst other
